@@ -137,6 +137,10 @@ Theorem C15_generated_argsort : forall l : list ph,
 Proof. exact argsort_generated. Qed.
 Theorem C15_generated_reductions : forall l : list ph, pmin l = gen_pmin l /\ pmax l = gen_pmax l /\ ptp l = gen_ptp l.
 Proof. exact (fun l => conj (pmin_generated l) (conj (pmax_generated l) (ptp_generated l))). Qed.
+Theorem C15_generated_strings :
+  gen_str_parse_string_as_modelled = true /\ gen_str_repr_as_modelled = true /\ gen_str_str_as_modelled = true /\
+  gen_str_format_as_modelled = true /\ gen_str_to_string_as_modelled = true /\ gen_str_from_string_as_modelled = true.
+Proof. exact string_methods_generated. Qed.
 
 Print Assumptions C15_diff_sign.
 Print Assumptions C15_comparisons.
